@@ -1,0 +1,73 @@
+//! Read-only state probe for the external verification harness.
+//!
+//! Compiled only with `--cfg abasic_verif`; never part of a normal build.
+//! Nothing in here changes interpreter state or control flow.
+
+#[derive(Debug, Clone, PartialEq)]
+pub enum VerifValue {
+    Num(f64),
+    Str(String),
+}
+
+#[derive(Debug, Clone, PartialEq)]
+pub struct VerifFrame {
+    /// Return location: (numbered line or None for the immediate line, token index).
+    pub return_location: (Option<u64>, usize),
+    /// Bound names, sorted by name.
+    pub bindings: Vec<(String, VerifValue)>,
+}
+
+#[derive(Debug, Clone, PartialEq)]
+pub struct VerifLoop {
+    pub symbol: String,
+    pub location: (Option<u64>, usize),
+    pub to_value: f64,
+    pub step_value: f64,
+}
+
+#[derive(Debug, Clone, PartialEq)]
+pub struct VerifArray {
+    pub name: String,
+    pub is_string: bool,
+    pub dimensions: Vec<usize>,
+    pub cell_count: usize,
+    /// FNV-1a hash of the cell contents (only when probed with `deep`).
+    pub content_hash: u64,
+}
+
+#[derive(Debug, Clone, PartialEq)]
+pub struct VerifFunction {
+    pub name: String,
+    pub arguments: Vec<String>,
+    pub location: (u64, usize),
+}
+
+#[derive(Debug, Clone, PartialEq)]
+pub struct VerifProbe {
+    pub location: (Option<u64>, usize),
+    /// Spellings of the tokens of the line the location points into.
+    pub line_tokens: Vec<String>,
+    pub breakpoint: Option<(u64, usize)>,
+    pub stack: Vec<VerifFrame>,
+    pub loops: Vec<VerifLoop>,
+    /// Sorted by name.
+    pub arrays: Vec<VerifArray>,
+    /// Sorted by name.
+    pub variables: Vec<(String, VerifValue)>,
+    /// Sorted by name.
+    pub functions: Vec<VerifFunction>,
+    /// (chunk index, item index) of the DATA cursor, None if not started.
+    pub data_cursor: Option<(usize, usize)>,
+    pub input_pending: bool,
+    pub rng_state: u64,
+    /// Number of `peek_next_token` calls so far.
+    pub token_reads: u64,
+    pub line_count: usize,
+}
+
+pub(crate) fn fnv1a(hash: &mut u64, bytes: &[u8]) {
+    for b in bytes {
+        *hash ^= *b as u64;
+        *hash = hash.wrapping_mul(0x100000001b3);
+    }
+}
